@@ -13,6 +13,27 @@ V = TypeVar('V')
 RHS = TypeVar('RHS')
 
 
+class _Not:
+    """
+    Logical inverse of an ordering operator
+
+    For partially ordered values, such as resource levels, ``not a >= b``
+    is not the same as ``a < b``.
+    """
+    __slots__ = ('operator', '__name__')
+
+    def __init__(self, op: Callable[[Any, Any], bool]):
+        self.operator = op
+        self.__name__ = 'not_' + op.__name__
+
+    def __call__(self, left, right) -> bool:
+        return not self.operator(left, right)
+
+
+_NOT_LT, _NOT_LE = _Not(operator.lt), _Not(operator.le)
+_NOT_GE, _NOT_GT = _Not(operator.ge), _Not(operator.gt)
+
+
 class AsyncComparison(Condition):
     """
     An asynchronous comparison of a :py:class:`~.Tracked` value
@@ -29,12 +50,20 @@ class AsyncComparison(Condition):
         operator.ne: '!=',
         operator.ge: '>=',
         operator.gt: '>',
+        _NOT_LT: 'not <',
+        _NOT_LE: 'not <=',
+        _NOT_GE: 'not >=',
+        _NOT_GT: 'not >',
     }
     _operator_inverse = {
-        operator.lt: operator.ge,
-        operator.ge: operator.lt,
-        operator.gt: operator.le,
-        operator.le: operator.gt,
+        operator.lt: _NOT_LT,
+        _NOT_LT: operator.lt,
+        operator.ge: _NOT_GE,
+        _NOT_GE: operator.ge,
+        operator.gt: _NOT_GT,
+        _NOT_GT: operator.gt,
+        operator.le: _NOT_LE,
+        _NOT_LE: operator.le,
         operator.eq: operator.ne,
         operator.ne: operator.eq,
     }
